@@ -254,7 +254,7 @@ def r4(idx, rep):
         rep.check(rets == [want], "R4", f"{fi.file}::CsvPath.{prop}", f"returns {rets}", K.where(fi, fi.node))
     # bare count() = match_count + 1
     fi = idx.method("Count", "to_value")
-    rep.analysed(fi, idx.method("Count", "_get_match_count"))
+    rep.analysed(fi, *K.opt(idx, "Count", "_get_match_count"))
     it = Interp(idx, types={"self": "Count"}, inline={"Count._get_match_count"}, unknown_calls="residual",
                 domains={"self._function_or_equality": [None], "self.value": [None], "self.matcher": [Obj("self.matcher")], "self.matcher.csvpath": [Obj("self.matcher.csvpath")]})
     ps = it.run_all(fi, args={"skip": []})
